@@ -205,6 +205,18 @@ func c12Spawn(w *ndWriter) int {
 		ch.Close()
 	}()
 	c1.Close()
+	// a grandparent closed earlier: the parent itself is open, so its new child registers under it (only the PARENT's state counts)
+	{
+		root2 := fpgo.ActorNewGenerics(mk(make(chan got, 4)))
+		midLog := make(chan got, 4)
+		mid := root2.Spawn(mk(midLog))
+		root2.Close()
+		time.Sleep(time.Millisecond)
+		leaf := check(mid, false, midLog)
+		check(leaf, false, make(chan got, 4)) // and one level further down
+		mid.Close()
+		leaf.Close()
+	}
 	// a burst: several children spawned back to back (from the harness and from inside the parent's own effect), looked up only
 	// AFTER all of them exist; then the parent is closed and every child - still open - must go on processing what it is sent
 	for round := 0; round < 12; round++ {
